@@ -102,6 +102,16 @@ def decide(prop, cfg, tier, seed, b, rundir, run_driver, read_indexed, sh, ENV):
 
     mism = [k for k in cases if impl.get(k) != model.get(k) and not cases[k].startswith("nomodel")]
     res["mismatches"] = len(mism)
+    # model-judged cases: a disagreement in which the implementation's own outcome is a violation of the property while the
+    # model's (proved) outcome is not IS a failing input; cfg["model_judged"] = [(case kind, impl prefix, model prefix, signature)]
+    for k in mism:
+        if oracle.get(k, "ok") != "ok":
+            continue
+        kind = cases[k].split(" ", 1)[0]
+        for (ck, ip, mp, sig) in cfg.get("model_judged", []):
+            if kind == ck and impl.get(k, "").startswith(ip) and model.get(k, "").startswith(mp):
+                oracle[k] = "VIOL " + sig
+                break
     viol = [k for k in cases if oracle.get(k, "ok") != "ok"]
     res["oracle_viol"] = len(viol)
 
